@@ -444,14 +444,19 @@ def _update_axis(
   if options.linear_approx_tail and d > k:
     num_points = (k + 1) // 2
     assert num_points > 0
-    ranks = jnp.arange(1, num_points + 1)
     vals = axis_state.eigvals[:num_points]
+    # Keep the fit in the dtype of the sketch: integer ranks and a Python
+    # float branch value are float64 under jax_enable_x64, which breaks the
+    # cond below and changes the dtype of the stored tail.
+    ranks = jnp.arange(1, num_points + 1, dtype=vals.dtype)
     assert ranks.shape == vals.shape
     sample_cov = jnp.cov(ranks, vals)
     s_x, s_xy = sample_cov[0, 0], sample_cov[0, 1]
-    slope = jax.lax.cond(s_x > 0, lambda: s_xy / (s_x ** 2), lambda: 0.0)
+    slope = jax.lax.cond(
+        s_x > 0, lambda: s_xy / (s_x**2), lambda: jnp.zeros_like(s_xy)
+    )
     intercept = jnp.mean(vals) - slope * jnp.mean(ranks)
-    log_ranks = jnp.log(jnp.arange(k + 1, d + 1))
+    log_ranks = jnp.log(jnp.arange(k + 1, d + 1, dtype=vals.dtype))
     fitted_vals = slope * log_ranks + intercept
     tail = jnp.exp(jax.scipy.special.logsumexp(fitted_vals * 2)) / (d - k)
     undeflated = jnp.square(jnp.maximum(top_eigs, 0.0))
